@@ -273,7 +273,7 @@ impl Block {
             #[trigger] self.instructions@[old(self).instructions@.len() + j] == reindexed(other.instructions@[j], (old(self).next_instruction_index + j) as usize),
 //@ before 0 `let index = self.new_instruction_index();`
     let ghost pre = *self;
-//@ after 0 `self.instructions.push(instruction.clone_new_index(index));`
+//@ before 0 `} }`
     proof {
         Block::lemma_push_fresh_wf(pre, *self, self.instructions@.last());
         assert forall|i: int| 0 <= i < old(self).instructions@.len() implies #[trigger] self.instructions@[i] == old(self).instructions@[i] by {
